@@ -45,7 +45,7 @@ def r1(ctx: Ctx) -> None:
     writer_allowlist(ctx, "Order", "is_canceled", {"Order.__init__": "constructor", "OrderBook.cancel": "cancellation"})
 
 
-@rule("C04.R2", "a fill reduces both orders by exactly the logged volume", "T7 / T10", floor=2)
+@rule("C04.R2", "a fill reduces both orders by exactly the logged volume", "T7 / T10", floor=1)
 def r2(ctx: Ctx) -> None:
     f = ctx.func("Market._execute_orders")
     for p in normal_paths(ctx.paths(f.qualname)):
